@@ -62,6 +62,9 @@ func main() {
 
 	if *dump != "" {
 		p, err := loadProg(*repo, "", "", []string{"./leveldb/..."}, 13)
+		if strings.HasPrefix(*dump, "fixtures/") {
+			p, err = loadProg(*verif+"/fixtures", "", "", []string{"./..."}, 1)
+		}
 		if err != nil {
 			fmt.Println("LOAD ERROR:", err)
 			os.Exit(2)
